@@ -160,6 +160,9 @@ def plans(draw):
         hist.append(top)
         for q in others[:3]:
             hist.append(q)
+    # the formula recursion limit as the failure: a limit below the depth of the chain, then the default again
+    if draw(st.integers(0, 2)) == 0:
+        hist += [["clear_all_model"], ["set_recursion", draw(st.integers(1, 3))], top, ["set_recursion", 400], top]
     # None-result fault points
     for k in range(len(info["cells"])):
         if draw(st.integers(0, 3)) == 0:
@@ -277,7 +280,7 @@ def run_case(case):
             use_fe = bool(op[1])
             mx.use_formula_error(use_fe)
             continue
-        if k == "arm":
+        if k in ("arm", "set_recursion"):
             real.apply(op)
             apply_ref(rm, op)
             continue
@@ -353,6 +356,31 @@ def run_case(case):
         ticks = take_ticks()
         out.count("evaluations")
         trace = exp[2]
+        limited = rm.maxdepth is not None and rm.maxdepth < 100
+        if limited:
+            # under a small recursion limit which calls still fit depends on what is served from memory at that
+            # moment; the reference models that only approximately.  Asserted here: the error is the limit error in
+            # its wrapper, nothing is left executing, the self-checks pass - and (below) every later evaluation is
+            # right.  Held values are dropped afterwards so that both sides start again from the same picture.
+            if res[0] == "err":
+                out.count("faulted_evaluations")
+                orig = mx.get_error() if use_fe else exc
+                if use_fe and type(exc).__name__ != "FormulaError":
+                    return out.fail("error-wrapper", "%r raised %s instead of FormulaError" % (op, type(exc).__name__), i)
+                if exp[0] == "err" and type(orig).__name__ != exp[1] and "DeepReferenceError" not in (
+                        type(orig).__name__, exp[1]):
+                    return out.fail("error-kind", "%r: modelx raises %r, reference %s" % (op, orig, exp[1]), i)
+            bad = peek_executor()
+            if bad:
+                return out.fail("executor-not-unwound", "after %r: %s" % (op, "; ".join(bad)), i)
+            try:
+                mx.core.mxsys._check_sanity()
+            except AssertionError as a:
+                return out.fail("self-check", "mxsys._check_sanity() failed after %r: %r" % (op, a), i)
+            real.m.clear_all()
+            sim.discard_many(list(sim.held))
+            out.count("limited_evaluations")
+            continue
         if exp[0] == "ok":
             if res != ("ok", exp[1]):
                 return out.fail("retry-value", "%r: modelx %r (%s), reference %r" % (
